@@ -362,5 +362,7 @@ def check(ctx: Ctx) -> None:
     r07_2(ctx)
     r07_3(ctx)
     r07_4(ctx)
+    from .tablecore import broadcast_expansion
+    broadcast_expansion(ctx, "R07.4")
     r07_5(ctx)
     r07_6(ctx)
